@@ -1,6 +1,10 @@
 """Load-time normalisation of the source tree: spellings of one and the same check are read as one construct, so that no rule
 depends on which spelling a maintainer prefers.
 
+  match s: case C(): … case "x": … case _: …          ->  if isinstance(s, C): … elif s == "x": … else: …   (patterns with an exact expression form)
+  with contextlib.suppress(E): BODY                   ->  try: BODY except E: pass
+  @_guard def f(…): BODY   where the private decorator ->  def f(…): PRE; BODY
+      only runs PRE and then calls f with its arguments unchanged
   if <c>: raise AssertionError(<msg>)                 ->  assert not <c>, <msg>
   _require(<c>, <msg>)   where _require is a helper   ->  assert <c>, <msg>
       that does nothing but raise AssertionError exactly when its parameter is false (decided by path enumeration; the
@@ -85,6 +89,204 @@ def _require_helpers(tree, nodes=None):
                 out[fn.name] = (pi, mi)
                 break
     return out
+
+
+GLOBAL_DECORATORS = {}  # name -> (wrapper's named parameters, statements it runs before calling the function)
+
+
+def _guard_decorators(tree):
+    """private decorators that only put statements in front of the function:
+         def _deco(fn):
+             @wraps(fn)
+             def wrapper(self, x, *args, **kwargs):
+                 PRE
+                 return fn(self, x, *args, **kwargs)
+             return wrapper"""
+    out = {}
+    for fn in ast.walk(tree):
+        if not isinstance(fn, ast.FunctionDef) or len(fn.args.args) != 1 or fn.args.vararg or fn.args.kwarg:
+            continue
+        body = [s_ for s_ in fn.body if not (isinstance(s_, ast.Expr) and isinstance(s_.value, ast.Constant))]
+        if not (len(body) == 2 and isinstance(body[0], ast.FunctionDef) and isinstance(body[1], ast.Return) and isinstance(body[1].value, ast.Name)
+                and body[1].value.id == body[0].name):
+            continue
+        w, wrapped = body[0], fn.args.args[0].arg
+        wb = [s_ for s_ in w.body if not (isinstance(s_, ast.Expr) and isinstance(s_.value, ast.Constant))]
+        if not wb or not (isinstance(wb[-1], ast.Return) and isinstance(wb[-1].value, ast.Call) and isinstance(wb[-1].value.func, ast.Name)
+                          and wb[-1].value.func.id == wrapped):
+            continue
+        named = [a.arg for a in w.args.args]
+        call = wb[-1].value
+        # the call hands everything on unchanged: named parameters in order, then *args / **kwargs
+        pos = [a for a in call.args if not isinstance(a, ast.Starred)]
+        if [a.id if isinstance(a, ast.Name) else None for a in pos] != named:
+            continue
+        if w.args.vararg and not any(isinstance(a, ast.Starred) and isinstance(a.value, ast.Name) and a.value.id == w.args.vararg.arg for a in call.args):
+            continue
+        if w.args.kwarg and not any(k.arg is None and isinstance(k.value, ast.Name) and k.value.id == w.args.kwarg.arg for k in call.keywords):
+            continue
+        pre = wb[:-1]
+        banned = {wrapped} | ({w.args.vararg.arg} if w.args.vararg else set()) | ({w.args.kwarg.arg} if w.args.kwarg else set())
+        if any(isinstance(x, ast.Name) and x.id in banned for s_ in pre for x in ast.walk(s_)):
+            continue
+        if any(isinstance(x, (ast.FunctionDef, ast.Lambda, ast.Return, ast.Yield, ast.YieldFrom)) for s_ in pre for x in ast.walk(s_)):
+            continue
+        out[fn.name] = (named, pre)
+    return out
+
+
+def _apply_guard_decorators(tree, decos):
+    from .core import copy_tree
+    from .unroll import _Sub
+    changed = False
+    for f in ast.walk(tree):
+        if not isinstance(f, ast.FunctionDef) or not f.decorator_list:
+            continue
+        keep = []
+        for d in f.decorator_list:
+            nm = d.id if isinstance(d, ast.Name) else (d.attr if isinstance(d, ast.Attribute) else None)
+            if nm in decos and not (f.args.vararg or f.args.kwonlyargs):
+                named, pre = decos[nm]
+                params = [a.arg for a in f.args.args]
+                if len(named) <= len(params):
+                    m = {w_: ast.Name(id=p_, ctx=ast.Load()) for w_, p_ in zip(named, params) if w_ != p_}
+                    stmts = [copy_tree(s_) for s_ in pre]
+                    if m:
+                        stmts = [_Sub(m).visit(s_) for s_ in stmts]
+                    for s_ in stmts:
+                        for x in ast.walk(s_):
+                            if hasattr(x, "lineno"):
+                                x.lineno = x.end_lineno = f.lineno
+                    doc = [f.body[0]] if f.body and isinstance(f.body[0], ast.Expr) and isinstance(f.body[0].value, ast.Constant) and isinstance(f.body[0].value.value, str) else []
+                    f.body = doc + stmts + f.body[len(doc):]
+                    changed = True
+                    continue
+            keep.append(d)
+        f.decorator_list = keep
+    return changed
+
+
+def _desugar_match(tree):
+    """match <subject>: case …   ->   if / elif chain, for the patterns that have an exact expression form:
+         case C():                isinstance(s, C)            case C() | D():        isinstance(s, (C, D))
+         case "lit" / 3:          s == "lit"                  case None / True:      s is None
+         case mod.NAME:           s == mod.NAME               case C(attr=<such>):   isinstance(s, C) and <s.attr matches>
+         case <name>:             always (binds name = s)     case _:                always
+         case … if guard:         … and guard
+    A match with any other pattern (sequences, mappings, captures inside class patterns, `as`) is left alone.  A subject that is not a
+    plain name is evaluated once into a local first."""
+    from .core import copy_tree
+    changed = [False]
+    counter = [0]
+
+    def test_of(pat, subj):
+        """expression that is true exactly when `pat` matches `subj` (no bindings), or None"""
+        name = pat.__class__.__name__
+        if name == "MatchValue":
+            return ast.Compare(left=copy_tree(subj), ops=[ast.Eq()], comparators=[pat.value])
+        if name == "MatchSingleton":
+            return ast.Compare(left=copy_tree(subj), ops=[ast.Is()], comparators=[ast.Constant(value=pat.value)])
+        if name == "MatchClass":
+            if pat.patterns:
+                return None
+            t = ast.Call(func=ast.Name(id="isinstance", ctx=ast.Load()), args=[copy_tree(subj), pat.cls], keywords=[])
+            parts = [t]
+            for attr, sub in zip(pat.kwd_attrs, pat.kwd_patterns):
+                st = test_of(sub, ast.Attribute(value=copy_tree(subj), attr=attr, ctx=ast.Load()))
+                if st is None:
+                    return None
+                parts.append(st)
+            return parts[0] if len(parts) == 1 else ast.BoolOp(op=ast.And(), values=parts)
+        if name == "MatchOr":
+            subs = [test_of(p_, subj) for p_ in pat.patterns]
+            if any(x is None for x in subs):
+                return None
+            # isinstance(s, A) or isinstance(s, B)  ->  isinstance(s, (A, B))
+            if all(isinstance(x, ast.Call) and isinstance(x.func, ast.Name) and x.func.id == "isinstance" for x in subs):
+                return ast.Call(func=ast.Name(id="isinstance", ctx=ast.Load()), args=[copy_tree(subj), ast.Tuple(elts=[x.args[1] for x in subs], ctx=ast.Load())], keywords=[])
+            return ast.BoolOp(op=ast.Or(), values=subs)
+        if name == "MatchAs" and pat.pattern is None:
+            if pat.name is not None:
+                binds.append((pat.name, copy_tree(subj)))
+            return ast.Constant(value=True)
+        if name == "MatchSequence" and isinstance(subj, ast.Tuple) and len(subj.elts) == len(pat.patterns) \
+                and not any(p_.__class__.__name__ == "MatchStar" for p_ in pat.patterns):
+            # a tuple built on the spot matched element by element: match (a, b): case (None, x): …
+            parts = []
+            for p_, e_ in zip(pat.patterns, subj.elts):
+                t_ = test_of(p_, e_)
+                if t_ is None:
+                    return None
+                if not (isinstance(t_, ast.Constant) and t_.value is True):
+                    parts.append(t_)
+            if not parts:
+                return ast.Constant(value=True)
+            return parts[0] if len(parts) == 1 else ast.BoolOp(op=ast.And(), values=parts)
+        return None
+
+    binds = []
+
+    def rewrite(m):
+        pre = []
+        subj = m.subject
+        if isinstance(subj, ast.Tuple) and all(isinstance(e_, (ast.Name, ast.Attribute, ast.Constant)) for e_ in subj.elts):
+            pass  # matched element by element; plain reads may be repeated
+        elif not isinstance(subj, ast.Name):
+            counter[0] += 1
+            nm = "subject__m%d" % counter[0]
+            pre = [ast.copy_location(ast.Assign(targets=[ast.Name(id=nm, ctx=ast.Store())], value=subj), m)]
+            subj = ast.copy_location(ast.Name(id=nm, ctx=ast.Load()), m)
+        branches = []
+        from .unroll import _Sub
+        for c in m.cases:
+            del binds[:]
+            t = test_of(c.pattern, subj)
+            if t is None:
+                return None
+            body = list(c.body)
+            captured = list(binds)
+            if captured:
+                # captures bind when the case is taken; the guard reads them as the sub-expressions they stand for
+                body = [ast.copy_location(ast.Assign(targets=[ast.Name(id=n_, ctx=ast.Store())], value=v_), m) for n_, v_ in captured] + body
+            guard = c.guard
+            if guard is not None and captured:
+                guard = _Sub({n_: v_ for n_, v_ in captured}).visit(copy_tree(guard))
+            if guard is not None:
+                t = guard if (isinstance(t, ast.Constant) and t.value is True) else ast.BoolOp(op=ast.And(), values=[t, guard])
+            branches.append((t, body))
+        node = []
+        for t, body in reversed(branches):
+            if isinstance(t, ast.Constant) and t.value is True:
+                node = body
+            else:
+                node = [ast.copy_location(ast.If(test=t, body=body, orelse=node), m)]
+        out = pre + (node or [ast.copy_location(ast.Pass(), m)])
+        for x in out:
+            ast.fix_missing_locations(x)
+        changed[0] = True
+        return out
+
+    def block(stmts):
+        i = 0
+        while i < len(stmts):
+            st = stmts[i]
+            for fld in ("body", "orelse", "finalbody"):
+                sub = getattr(st, fld, None)
+                if isinstance(sub, list) and sub and isinstance(sub[0], ast.stmt):
+                    block(sub)
+            for h in getattr(st, "handlers", []) or []:
+                block(h.body)
+            if st.__class__.__name__ == "Match":
+                for c in st.cases:
+                    block(c.body)
+                r = rewrite(st)
+                if r is not None:
+                    stmts[i:i + 1] = r
+                    i += len(r)
+                    continue
+            i += 1
+    block(tree.body)
+    return changed[0]
 
 
 def _desugar_bulk(tree, nodes):
@@ -259,6 +461,8 @@ GLOBAL_HELPERS = {}  # name -> (param index, message index): require-helpers see
 
 def normalise(tree):
     nodes = list(ast.walk(tree))
+    if any(x.__class__.__name__ == "Match" for x in nodes) and _desugar_match(tree):
+        nodes = list(ast.walk(tree))
     helpers = dict(GLOBAL_HELPERS)
     local = _require_helpers(tree, nodes)
     helpers.update(local)
@@ -336,6 +540,18 @@ def normalise(tree):
             self.depth += 1
             self.generic_visit(n)
             self.depth -= 1
+            return n
+
+        def visit_With(self, n):
+            self.generic_visit(n)
+            # with contextlib.suppress(E…): BODY   ->   try: BODY except (E…): pass
+            if len(n.items) == 1 and n.items[0].optional_vars is None and isinstance(n.items[0].context_expr, ast.Call):
+                c = n.items[0].context_expr
+                nm = c.func.attr if isinstance(c.func, ast.Attribute) else (c.func.id if isinstance(c.func, ast.Name) else None)
+                if nm == "suppress" and c.args and not c.keywords:
+                    typ = c.args[0] if len(c.args) == 1 else ast.Tuple(elts=list(c.args), ctx=ast.Load())
+                    h = ast.ExceptHandler(type=typ, name=None, body=[ast.copy_location(ast.Pass(), n)])
+                    return ast.fix_missing_locations(ast.copy_location(ast.Try(body=n.body, handlers=[ast.copy_location(h, n)], orelse=[], finalbody=[]), n))
             return n
 
         def visit_Return(self, n):
@@ -416,7 +632,7 @@ def normalise(tree):
         if isinstance(x, (ast.Assign, ast.Return)) and isinstance(x.value, ast.IfExp):
             need = True
             break
-        if isinstance(x, ast.NamedExpr):
+        if isinstance(x, ast.NamedExpr) or (isinstance(x, ast.With) and "suppress" in ast.dump(x.items[0].context_expr)):
             need = True
             break
         if isinstance(x, ast.If):
@@ -438,6 +654,14 @@ def normalise(tree):
         tree = T().visit(tree)
         ast.fix_missing_locations(tree)
         nodes = None
+    if nodes is None:
+        nodes = list(ast.walk(tree))
+    local_decos = _guard_decorators(tree) if any(isinstance(x, ast.FunctionDef) and x.decorator_list for x in nodes) else {}
+    GLOBAL_DECORATORS.update(local_decos)
+    if (local_decos or GLOBAL_DECORATORS) and any(isinstance(x, ast.FunctionDef) and x.decorator_list for x in nodes):
+        usable = {k: v for k, v in GLOBAL_DECORATORS.items() if k in local_decos or k in imported}
+        if usable and _apply_guard_decorators(tree, usable):
+            nodes = list(ast.walk(tree))
     if _instantiate_factories(tree):
         nodes = None
     if _desugar_bulk(tree, nodes if nodes is not None else list(ast.walk(tree))):
